@@ -1,0 +1,15 @@
+//go:build verif
+
+// Contracts for package twig (machine-checked by /verif/bin/stickvc; comment-only file).
+package twig
+
+//@ func twig.NewAutoEscapeExtension
+//@   ensures result != nil && fresh(result)
+
+// The escape filter installed by the extension. Assumptions on what the caller configured (A9): the
+// extension outlives its filter, registered escapers are not nil, and a SafeValue is not a nil pointer.
+//@ func twig.(*AutoEscapeExtension).Init
+//@   requires env != nil && env.Filters != nil
+//@ func twig.(*AutoEscapeExtension).Init$1
+//@   requires cfg: e != nil && !(kindof(val) == 22 && ref(val) == 0)
+//@   requires escapers: forall k :: mdom("map[string]Escaper", e.Escapers, k) ==> mval("map[string]Escaper", e.Escapers, k) != nil
